@@ -130,6 +130,15 @@ func inputStreams(t *testing.T, st *report.Stats, sc streamCfg, fn func(stream s
 	enum("enum-range", gen.RangeAlphabet(), sc.focusLen)
 	enum("enum-unary", gen.UnaryAlphabet(), sc.focusLen)
 	enum("enum-cmp", gen.CmpAlphabet(), sc.focusLen)
+	if sc.focusLen > 0 {
+		st.Stream("enum-range-frame", true, "token sequences around one range (gen.RangeFrames), joined by single spaces, x default field")
+		gen.RangeFrames(cfg.Shard, cfg.NShards, func(seq []gen.Tok) {
+			s := gen.JoinSpace(seq)
+			for _, df := range sc.dfs {
+				fn("enum-range-frame", mkIn(s, df, len(seq)))
+			}
+		})
+	}
 
 	dfGen := rapid.SampledFrom([]string{"", "", "dflt", "my field", `d"q`, "ü", "AND", "5"})
 	st.Rapid(t, "printed-trees", sc.trees, func(rt *rapid.T) {
